@@ -123,10 +123,23 @@ func randomBoundary(s shapeRec, rng *rand.Rand, count int) ([]vector, error) {
 	if root == nil {
 		return nil, fmt.Errorf("no root %s", s.Root)
 	}
-	var out []vector
-	for n := 0; n < count; n++ {
+	msgByName := map[string]*absd.Msg{}
+	for i := range d.Msgs {
+		msgByName[d.Msgs[i].Name] = &d.Msgs[i]
+	}
+	// one random value per scalar position; embedded messages (nullable: behind a pointer) are filled the same way
+	var fill func(m *absd.Msg) map[string]interface{}
+	fill = func(m *absd.Msg) map[string]interface{} {
 		f := map[string]interface{}{}
-		for _, fl := range root.Fields {
+		for _, fl := range m.Fields {
+			if fl.Ty == "msg" && fl.Embed {
+				st := map[string]interface{}{"t": "st", "f": fill(msgByName[fl.Ref])}
+				if fl.Nullable {
+					st = map[string]interface{}{"t": "ptr", "p": st}
+				}
+				f[fl.Ref] = st
+				continue
+			}
 			gt := goBaseType(c, fl)
 			ptr := (fl.Ty == "timestamp" || fl.Ty == "duration") && fl.Nullable
 			one := func() map[string]interface{} {
@@ -156,6 +169,11 @@ func randomBoundary(s shapeRec, rng *rand.Rand, count int) ([]vector, error) {
 				f[name] = one()
 			}
 		}
+		return f
+	}
+	var out []vector
+	for n := 0; n < count; n++ {
+		f := fill(root)
 		steps := []map[string]interface{}{
 			{"ev": "SetObj", "arg": map[string]interface{}{"t": "st", "f": f}},
 			{"ev": "NewEmpty", "arg": map[string]interface{}{"t": "nil"}},
